@@ -104,8 +104,11 @@ def gen_map_meta(r: random.Random, game: str, keys: int) -> dict:
         return dict(chart_type=SM_TYPES.get(keys, "dance-single"), description=r.choice(["", "d"]),
                     difficulty=r.choice(["Easy", "Hard", "Challenge"]), difficulty_val=r.choice([1, 5, 12]))
     if game == "bms":
-        return dict(title=t.encode("ascii"), artist=a.encode("ascii"), version=r.choice([b"1", b"12", b"5"]),
-                    samples_dict={b"01": b"a.wav", b"02": b"kick.ogg"} if r.random() < 0.5 else {})
+        m = dict(title=t.encode("ascii"), artist=a.encode("ascii"), version=r.choice([b"1", b"12", b"5"]),
+                 samples_dict={b"01": b"a.wav", b"02": b"kick.ogg"} if r.random() < 0.5 else {})
+        if r.random() < 0.3:
+            m["ln_end_channel"] = r.choice([b"", b"ZY"])  # a chart read from a file without / with another #LNOBJ
+        return m
     return {}
 
 
@@ -762,7 +765,7 @@ class GenC15(Gen):
     WRITE_GAMES = {"osu": "osu", "qua": "qua", "sm": "sm", "bms": "bms"}
 
     def _plan(self, n):
-        how = self.r.choice(["unsorted", "unsorted", "append", "reverse_sort", "concat", "canonical"])
+        how = self.r.choice(["unsorted", "unsorted", "append", "reverse_sort", "concat", "canonical", "sort_then_reverse", "concat_sorted_parts"])
         perm = list(range(n))
         self.r.shuffle(perm)
         return dict(how=how, perm=perm, cuts=sorted(self.r.sample(range(1, n), min(n - 1, self.r.choice([1, 2])))) if n > 1 else [])
@@ -1206,6 +1209,39 @@ class GridMixin:
         return [self.mk("map.new", game=game, lists=lists, meta=meta, how="items", out=self.new_h(), keys=keys)]
 
 
+class GenC14F(GridMixin, GenC14):
+    """C14 with the writers: write() / write_file() on charts in any state, judged on the frame condition only
+    (the chart given to the writer is unchanged whether the call succeeds, raises, or meets an injected error)."""
+
+    table = dict(GenC14.table, write_any=12, grid_src=6)
+
+    def setup(self):
+        self.io_r = self.s.streams["io"]
+        self.n_paths = 0
+
+    def p_grid_src(self):
+        g = self.r.choice(["sm", "bms", "bms", "osu", "qua"])
+        return self.grid_source(g, t0=0.0 if g == "bms" else self.d.choice([0.0, 100.0]), exact=True if g == "bms" else None, lcm_cap=384)
+
+    def p_write_any(self):
+        from .simfs import draw_io_plan
+
+        hs = [h for h in self.w.h.values() if (h.kind == "map" and h.game in ("osu", "qua", "bms")) or (h.kind == "mapset" and h.game == "sm")]
+        if not hs:
+            return None
+        h = self.r.choice(hs)
+        self.n_paths += 1
+        ext = {"osu": ".osu", "qua": ".qua", "bms": ".bms", "sm": ".sm"}[h.game]
+        op = self.mk("io.write", game=h.game, h=h.name, path=f"/simfs/{self.s.seed:x}/w{self.n_paths}{ext}", prop="C14",
+                     path_type=self.s.knobs.get("path_type", "str"), io=draw_io_plan(self.io_r, self.s.knobs, "w"))
+        if self.r.random() < 0.4:
+            op["via"] = "api"
+            op["io"] = dict(bufsize=8192, chunks=0, fault=None)
+        if h.game == "bms":
+            op["layout"] = self.r.choice(["BME", "PMS_BME", "BMS"])
+        return op
+
+
 class GenC03(GridMixin, FileGen):
     game = "sm"
     reread_prop = "C03"
@@ -1523,4 +1559,4 @@ class GenC15G(GridMixin, GenC15):
         return op
 
 
-SCENARIOS = {"C01": GenC01, "C02": GenC02, "C07": GenC07, "C09": GenC09, "C13": GenC13F, "C04": GenC04, "C05": GenC05, "C03": GenC03, "C06": GenC06, "C16": GenC16, "C14": GenC14, "C12": GenC12, "C08": GenC08, "C15": GenC15G}
+SCENARIOS = {"C01": GenC01, "C02": GenC02, "C07": GenC07, "C09": GenC09, "C13": GenC13F, "C04": GenC04, "C05": GenC05, "C03": GenC03, "C06": GenC06, "C16": GenC16, "C14": GenC14F, "C12": GenC12, "C08": GenC08, "C15": GenC15G}
